@@ -1,350 +1,350 @@
 // @in-module cpr
 // generated: one longitude instance per NL zone (2..=59) and parity; all longitudes at 5 mm resolution
-// @harness name=c08_lon_nl02_even props=C08 tier=thorough cap=1800 family=c08lon quickpick=0 needs=kfmod
+// @harness name=c08_lon_nl02_even props=C08 tier=thorough cap=7200 family=c08lon quickpick=0 needs=kfmod
 // all longitudes in latitude zone NL=2 (latitude mid-zone, hemisphere by seed), even frame newer
 lon_zone!(c08_lon_nl02_even, 2, 0);
-// @harness name=c08_lon_nl02_odd props=C08 tier=thorough cap=1800 family=c08lon quickpick=0 needs=kfmod
+// @harness name=c08_lon_nl02_odd props=C08 tier=thorough cap=7200 family=c08lon quickpick=0 needs=kfmod
 // all longitudes in latitude zone NL=2 (latitude mid-zone, hemisphere by seed), odd frame newer
 lon_zone!(c08_lon_nl02_odd, 2, 1);
-// @harness name=c08_lon_nl03_even props=C08 tier=thorough cap=1800 family=c08lon quickpick=0 needs=kfmod
+// @harness name=c08_lon_nl03_even props=C08 tier=thorough cap=7200 family=c08lon quickpick=0 needs=kfmod
 // all longitudes in latitude zone NL=3 (latitude mid-zone, hemisphere by seed), even frame newer
 lon_zone!(c08_lon_nl03_even, 3, 0);
-// @harness name=c08_lon_nl03_odd props=C08 tier=thorough cap=1800 family=c08lon quickpick=0 needs=kfmod
+// @harness name=c08_lon_nl03_odd props=C08 tier=thorough cap=7200 family=c08lon quickpick=0 needs=kfmod
 // all longitudes in latitude zone NL=3 (latitude mid-zone, hemisphere by seed), odd frame newer
 lon_zone!(c08_lon_nl03_odd, 3, 1);
-// @harness name=c08_lon_nl04_even props=C08 tier=thorough cap=1800 family=c08lon quickpick=0 needs=kfmod
+// @harness name=c08_lon_nl04_even props=C08 tier=thorough cap=7200 family=c08lon quickpick=0 needs=kfmod
 // all longitudes in latitude zone NL=4 (latitude mid-zone, hemisphere by seed), even frame newer
 lon_zone!(c08_lon_nl04_even, 4, 0);
-// @harness name=c08_lon_nl04_odd props=C08 tier=thorough cap=1800 family=c08lon quickpick=0 needs=kfmod
+// @harness name=c08_lon_nl04_odd props=C08 tier=thorough cap=7200 family=c08lon quickpick=0 needs=kfmod
 // all longitudes in latitude zone NL=4 (latitude mid-zone, hemisphere by seed), odd frame newer
 lon_zone!(c08_lon_nl04_odd, 4, 1);
-// @harness name=c08_lon_nl05_even props=C08 tier=thorough cap=1800 family=c08lon quickpick=0 needs=kfmod
+// @harness name=c08_lon_nl05_even props=C08 tier=thorough cap=7200 family=c08lon quickpick=0 needs=kfmod
 // all longitudes in latitude zone NL=5 (latitude mid-zone, hemisphere by seed), even frame newer
 lon_zone!(c08_lon_nl05_even, 5, 0);
-// @harness name=c08_lon_nl05_odd props=C08 tier=thorough cap=1800 family=c08lon quickpick=0 needs=kfmod
+// @harness name=c08_lon_nl05_odd props=C08 tier=thorough cap=7200 family=c08lon quickpick=0 needs=kfmod
 // all longitudes in latitude zone NL=5 (latitude mid-zone, hemisphere by seed), odd frame newer
 lon_zone!(c08_lon_nl05_odd, 5, 1);
-// @harness name=c08_lon_nl06_even props=C08 tier=thorough cap=1800 family=c08lon quickpick=0 needs=kfmod
+// @harness name=c08_lon_nl06_even props=C08 tier=thorough cap=7200 family=c08lon quickpick=0 needs=kfmod
 // all longitudes in latitude zone NL=6 (latitude mid-zone, hemisphere by seed), even frame newer
 lon_zone!(c08_lon_nl06_even, 6, 0);
-// @harness name=c08_lon_nl06_odd props=C08 tier=thorough cap=1800 family=c08lon quickpick=0 needs=kfmod
+// @harness name=c08_lon_nl06_odd props=C08 tier=thorough cap=7200 family=c08lon quickpick=0 needs=kfmod
 // all longitudes in latitude zone NL=6 (latitude mid-zone, hemisphere by seed), odd frame newer
 lon_zone!(c08_lon_nl06_odd, 6, 1);
-// @harness name=c08_lon_nl07_even props=C08 tier=thorough cap=1800 family=c08lon quickpick=0 needs=kfmod
+// @harness name=c08_lon_nl07_even props=C08 tier=thorough cap=7200 family=c08lon quickpick=0 needs=kfmod
 // all longitudes in latitude zone NL=7 (latitude mid-zone, hemisphere by seed), even frame newer
 lon_zone!(c08_lon_nl07_even, 7, 0);
-// @harness name=c08_lon_nl07_odd props=C08 tier=thorough cap=1800 family=c08lon quickpick=0 needs=kfmod
+// @harness name=c08_lon_nl07_odd props=C08 tier=thorough cap=7200 family=c08lon quickpick=0 needs=kfmod
 // all longitudes in latitude zone NL=7 (latitude mid-zone, hemisphere by seed), odd frame newer
 lon_zone!(c08_lon_nl07_odd, 7, 1);
-// @harness name=c08_lon_nl08_even props=C08 tier=thorough cap=1800 family=c08lon quickpick=0 needs=kfmod
+// @harness name=c08_lon_nl08_even props=C08 tier=thorough cap=7200 family=c08lon quickpick=0 needs=kfmod
 // all longitudes in latitude zone NL=8 (latitude mid-zone, hemisphere by seed), even frame newer
 lon_zone!(c08_lon_nl08_even, 8, 0);
-// @harness name=c08_lon_nl08_odd props=C08 tier=thorough cap=1800 family=c08lon quickpick=0 needs=kfmod
+// @harness name=c08_lon_nl08_odd props=C08 tier=thorough cap=7200 family=c08lon quickpick=0 needs=kfmod
 // all longitudes in latitude zone NL=8 (latitude mid-zone, hemisphere by seed), odd frame newer
 lon_zone!(c08_lon_nl08_odd, 8, 1);
-// @harness name=c08_lon_nl09_even props=C08 tier=thorough cap=1800 family=c08lon quickpick=0 needs=kfmod
+// @harness name=c08_lon_nl09_even props=C08 tier=thorough cap=7200 family=c08lon quickpick=0 needs=kfmod
 // all longitudes in latitude zone NL=9 (latitude mid-zone, hemisphere by seed), even frame newer
 lon_zone!(c08_lon_nl09_even, 9, 0);
-// @harness name=c08_lon_nl09_odd props=C08 tier=thorough cap=1800 family=c08lon quickpick=0 needs=kfmod
+// @harness name=c08_lon_nl09_odd props=C08 tier=thorough cap=7200 family=c08lon quickpick=0 needs=kfmod
 // all longitudes in latitude zone NL=9 (latitude mid-zone, hemisphere by seed), odd frame newer
 lon_zone!(c08_lon_nl09_odd, 9, 1);
-// @harness name=c08_lon_nl10_even props=C08 tier=thorough cap=1800 family=c08lon quickpick=0 needs=kfmod
+// @harness name=c08_lon_nl10_even props=C08 tier=thorough cap=7200 family=c08lon quickpick=0 needs=kfmod
 // all longitudes in latitude zone NL=10 (latitude mid-zone, hemisphere by seed), even frame newer
 lon_zone!(c08_lon_nl10_even, 10, 0);
-// @harness name=c08_lon_nl10_odd props=C08 tier=thorough cap=1800 family=c08lon quickpick=0 needs=kfmod
+// @harness name=c08_lon_nl10_odd props=C08 tier=thorough cap=7200 family=c08lon quickpick=0 needs=kfmod
 // all longitudes in latitude zone NL=10 (latitude mid-zone, hemisphere by seed), odd frame newer
 lon_zone!(c08_lon_nl10_odd, 10, 1);
-// @harness name=c08_lon_nl11_even props=C08 tier=thorough cap=1800 family=c08lon quickpick=0 needs=kfmod
+// @harness name=c08_lon_nl11_even props=C08 tier=thorough cap=7200 family=c08lon quickpick=0 needs=kfmod
 // all longitudes in latitude zone NL=11 (latitude mid-zone, hemisphere by seed), even frame newer
 lon_zone!(c08_lon_nl11_even, 11, 0);
-// @harness name=c08_lon_nl11_odd props=C08 tier=thorough cap=1800 family=c08lon quickpick=0 needs=kfmod
+// @harness name=c08_lon_nl11_odd props=C08 tier=thorough cap=7200 family=c08lon quickpick=0 needs=kfmod
 // all longitudes in latitude zone NL=11 (latitude mid-zone, hemisphere by seed), odd frame newer
 lon_zone!(c08_lon_nl11_odd, 11, 1);
-// @harness name=c08_lon_nl12_even props=C08 tier=thorough cap=1800 family=c08lon quickpick=0 needs=kfmod
+// @harness name=c08_lon_nl12_even props=C08 tier=thorough cap=7200 family=c08lon quickpick=0 needs=kfmod
 // all longitudes in latitude zone NL=12 (latitude mid-zone, hemisphere by seed), even frame newer
 lon_zone!(c08_lon_nl12_even, 12, 0);
-// @harness name=c08_lon_nl12_odd props=C08 tier=thorough cap=1800 family=c08lon quickpick=0 needs=kfmod
+// @harness name=c08_lon_nl12_odd props=C08 tier=thorough cap=7200 family=c08lon quickpick=0 needs=kfmod
 // all longitudes in latitude zone NL=12 (latitude mid-zone, hemisphere by seed), odd frame newer
 lon_zone!(c08_lon_nl12_odd, 12, 1);
-// @harness name=c08_lon_nl13_even props=C08 tier=thorough cap=1800 family=c08lon quickpick=0 needs=kfmod
+// @harness name=c08_lon_nl13_even props=C08 tier=thorough cap=7200 family=c08lon quickpick=0 needs=kfmod
 // all longitudes in latitude zone NL=13 (latitude mid-zone, hemisphere by seed), even frame newer
 lon_zone!(c08_lon_nl13_even, 13, 0);
-// @harness name=c08_lon_nl13_odd props=C08 tier=thorough cap=1800 family=c08lon quickpick=0 needs=kfmod
+// @harness name=c08_lon_nl13_odd props=C08 tier=thorough cap=7200 family=c08lon quickpick=0 needs=kfmod
 // all longitudes in latitude zone NL=13 (latitude mid-zone, hemisphere by seed), odd frame newer
 lon_zone!(c08_lon_nl13_odd, 13, 1);
-// @harness name=c08_lon_nl14_even props=C08 tier=thorough cap=1800 family=c08lon quickpick=0 needs=kfmod
+// @harness name=c08_lon_nl14_even props=C08 tier=thorough cap=7200 family=c08lon quickpick=0 needs=kfmod
 // all longitudes in latitude zone NL=14 (latitude mid-zone, hemisphere by seed), even frame newer
 lon_zone!(c08_lon_nl14_even, 14, 0);
-// @harness name=c08_lon_nl14_odd props=C08 tier=thorough cap=1800 family=c08lon quickpick=0 needs=kfmod
+// @harness name=c08_lon_nl14_odd props=C08 tier=thorough cap=7200 family=c08lon quickpick=0 needs=kfmod
 // all longitudes in latitude zone NL=14 (latitude mid-zone, hemisphere by seed), odd frame newer
 lon_zone!(c08_lon_nl14_odd, 14, 1);
-// @harness name=c08_lon_nl15_even props=C08 tier=thorough cap=1800 family=c08lon quickpick=0 needs=kfmod
+// @harness name=c08_lon_nl15_even props=C08 tier=thorough cap=7200 family=c08lon quickpick=0 needs=kfmod
 // all longitudes in latitude zone NL=15 (latitude mid-zone, hemisphere by seed), even frame newer
 lon_zone!(c08_lon_nl15_even, 15, 0);
-// @harness name=c08_lon_nl15_odd props=C08 tier=thorough cap=1800 family=c08lon quickpick=0 needs=kfmod
+// @harness name=c08_lon_nl15_odd props=C08 tier=thorough cap=7200 family=c08lon quickpick=0 needs=kfmod
 // all longitudes in latitude zone NL=15 (latitude mid-zone, hemisphere by seed), odd frame newer
 lon_zone!(c08_lon_nl15_odd, 15, 1);
-// @harness name=c08_lon_nl16_even props=C08 tier=thorough cap=1800 family=c08lon quickpick=0 needs=kfmod
+// @harness name=c08_lon_nl16_even props=C08 tier=thorough cap=7200 family=c08lon quickpick=0 needs=kfmod
 // all longitudes in latitude zone NL=16 (latitude mid-zone, hemisphere by seed), even frame newer
 lon_zone!(c08_lon_nl16_even, 16, 0);
-// @harness name=c08_lon_nl16_odd props=C08 tier=thorough cap=1800 family=c08lon quickpick=0 needs=kfmod
+// @harness name=c08_lon_nl16_odd props=C08 tier=thorough cap=7200 family=c08lon quickpick=0 needs=kfmod
 // all longitudes in latitude zone NL=16 (latitude mid-zone, hemisphere by seed), odd frame newer
 lon_zone!(c08_lon_nl16_odd, 16, 1);
-// @harness name=c08_lon_nl17_even props=C08 tier=thorough cap=1800 family=c08lon quickpick=0 needs=kfmod
+// @harness name=c08_lon_nl17_even props=C08 tier=thorough cap=7200 family=c08lon quickpick=0 needs=kfmod
 // all longitudes in latitude zone NL=17 (latitude mid-zone, hemisphere by seed), even frame newer
 lon_zone!(c08_lon_nl17_even, 17, 0);
-// @harness name=c08_lon_nl17_odd props=C08 tier=thorough cap=1800 family=c08lon quickpick=0 needs=kfmod
+// @harness name=c08_lon_nl17_odd props=C08 tier=thorough cap=7200 family=c08lon quickpick=0 needs=kfmod
 // all longitudes in latitude zone NL=17 (latitude mid-zone, hemisphere by seed), odd frame newer
 lon_zone!(c08_lon_nl17_odd, 17, 1);
-// @harness name=c08_lon_nl18_even props=C08 tier=thorough cap=1800 family=c08lon quickpick=0 needs=kfmod
+// @harness name=c08_lon_nl18_even props=C08 tier=thorough cap=7200 family=c08lon quickpick=0 needs=kfmod
 // all longitudes in latitude zone NL=18 (latitude mid-zone, hemisphere by seed), even frame newer
 lon_zone!(c08_lon_nl18_even, 18, 0);
-// @harness name=c08_lon_nl18_odd props=C08 tier=thorough cap=1800 family=c08lon quickpick=0 needs=kfmod
+// @harness name=c08_lon_nl18_odd props=C08 tier=thorough cap=7200 family=c08lon quickpick=0 needs=kfmod
 // all longitudes in latitude zone NL=18 (latitude mid-zone, hemisphere by seed), odd frame newer
 lon_zone!(c08_lon_nl18_odd, 18, 1);
-// @harness name=c08_lon_nl19_even props=C08 tier=thorough cap=1800 family=c08lon quickpick=0 needs=kfmod
+// @harness name=c08_lon_nl19_even props=C08 tier=thorough cap=7200 family=c08lon quickpick=0 needs=kfmod
 // all longitudes in latitude zone NL=19 (latitude mid-zone, hemisphere by seed), even frame newer
 lon_zone!(c08_lon_nl19_even, 19, 0);
-// @harness name=c08_lon_nl19_odd props=C08 tier=thorough cap=1800 family=c08lon quickpick=0 needs=kfmod
+// @harness name=c08_lon_nl19_odd props=C08 tier=thorough cap=7200 family=c08lon quickpick=0 needs=kfmod
 // all longitudes in latitude zone NL=19 (latitude mid-zone, hemisphere by seed), odd frame newer
 lon_zone!(c08_lon_nl19_odd, 19, 1);
-// @harness name=c08_lon_nl20_even props=C08 tier=thorough cap=1800 family=c08lon quickpick=0 needs=kfmod
+// @harness name=c08_lon_nl20_even props=C08 tier=thorough cap=7200 family=c08lon quickpick=0 needs=kfmod
 // all longitudes in latitude zone NL=20 (latitude mid-zone, hemisphere by seed), even frame newer
 lon_zone!(c08_lon_nl20_even, 20, 0);
-// @harness name=c08_lon_nl20_odd props=C08 tier=thorough cap=1800 family=c08lon quickpick=0 needs=kfmod
+// @harness name=c08_lon_nl20_odd props=C08 tier=thorough cap=7200 family=c08lon quickpick=0 needs=kfmod
 // all longitudes in latitude zone NL=20 (latitude mid-zone, hemisphere by seed), odd frame newer
 lon_zone!(c08_lon_nl20_odd, 20, 1);
-// @harness name=c08_lon_nl21_even props=C08 tier=thorough cap=1800 family=c08lon quickpick=0 needs=kfmod
+// @harness name=c08_lon_nl21_even props=C08 tier=thorough cap=7200 family=c08lon quickpick=0 needs=kfmod
 // all longitudes in latitude zone NL=21 (latitude mid-zone, hemisphere by seed), even frame newer
 lon_zone!(c08_lon_nl21_even, 21, 0);
-// @harness name=c08_lon_nl21_odd props=C08 tier=thorough cap=1800 family=c08lon quickpick=0 needs=kfmod
+// @harness name=c08_lon_nl21_odd props=C08 tier=thorough cap=7200 family=c08lon quickpick=0 needs=kfmod
 // all longitudes in latitude zone NL=21 (latitude mid-zone, hemisphere by seed), odd frame newer
 lon_zone!(c08_lon_nl21_odd, 21, 1);
-// @harness name=c08_lon_nl22_even props=C08 tier=thorough cap=1800 family=c08lon quickpick=0 needs=kfmod
+// @harness name=c08_lon_nl22_even props=C08 tier=thorough cap=7200 family=c08lon quickpick=0 needs=kfmod
 // all longitudes in latitude zone NL=22 (latitude mid-zone, hemisphere by seed), even frame newer
 lon_zone!(c08_lon_nl22_even, 22, 0);
-// @harness name=c08_lon_nl22_odd props=C08 tier=thorough cap=1800 family=c08lon quickpick=0 needs=kfmod
+// @harness name=c08_lon_nl22_odd props=C08 tier=thorough cap=7200 family=c08lon quickpick=0 needs=kfmod
 // all longitudes in latitude zone NL=22 (latitude mid-zone, hemisphere by seed), odd frame newer
 lon_zone!(c08_lon_nl22_odd, 22, 1);
-// @harness name=c08_lon_nl23_even props=C08 tier=thorough cap=1800 family=c08lon quickpick=0 needs=kfmod
+// @harness name=c08_lon_nl23_even props=C08 tier=thorough cap=7200 family=c08lon quickpick=0 needs=kfmod
 // all longitudes in latitude zone NL=23 (latitude mid-zone, hemisphere by seed), even frame newer
 lon_zone!(c08_lon_nl23_even, 23, 0);
-// @harness name=c08_lon_nl23_odd props=C08 tier=thorough cap=1800 family=c08lon quickpick=0 needs=kfmod
+// @harness name=c08_lon_nl23_odd props=C08 tier=thorough cap=7200 family=c08lon quickpick=0 needs=kfmod
 // all longitudes in latitude zone NL=23 (latitude mid-zone, hemisphere by seed), odd frame newer
 lon_zone!(c08_lon_nl23_odd, 23, 1);
-// @harness name=c08_lon_nl24_even props=C08 tier=thorough cap=1800 family=c08lon quickpick=0 needs=kfmod
+// @harness name=c08_lon_nl24_even props=C08 tier=thorough cap=7200 family=c08lon quickpick=0 needs=kfmod
 // all longitudes in latitude zone NL=24 (latitude mid-zone, hemisphere by seed), even frame newer
 lon_zone!(c08_lon_nl24_even, 24, 0);
-// @harness name=c08_lon_nl24_odd props=C08 tier=thorough cap=1800 family=c08lon quickpick=0 needs=kfmod
+// @harness name=c08_lon_nl24_odd props=C08 tier=thorough cap=7200 family=c08lon quickpick=0 needs=kfmod
 // all longitudes in latitude zone NL=24 (latitude mid-zone, hemisphere by seed), odd frame newer
 lon_zone!(c08_lon_nl24_odd, 24, 1);
-// @harness name=c08_lon_nl25_even props=C08 tier=thorough cap=1800 family=c08lon quickpick=0 needs=kfmod
+// @harness name=c08_lon_nl25_even props=C08 tier=thorough cap=7200 family=c08lon quickpick=0 needs=kfmod
 // all longitudes in latitude zone NL=25 (latitude mid-zone, hemisphere by seed), even frame newer
 lon_zone!(c08_lon_nl25_even, 25, 0);
-// @harness name=c08_lon_nl25_odd props=C08 tier=thorough cap=1800 family=c08lon quickpick=0 needs=kfmod
+// @harness name=c08_lon_nl25_odd props=C08 tier=thorough cap=7200 family=c08lon quickpick=0 needs=kfmod
 // all longitudes in latitude zone NL=25 (latitude mid-zone, hemisphere by seed), odd frame newer
 lon_zone!(c08_lon_nl25_odd, 25, 1);
-// @harness name=c08_lon_nl26_even props=C08 tier=thorough cap=1800 family=c08lon quickpick=0 needs=kfmod
+// @harness name=c08_lon_nl26_even props=C08 tier=thorough cap=7200 family=c08lon quickpick=0 needs=kfmod
 // all longitudes in latitude zone NL=26 (latitude mid-zone, hemisphere by seed), even frame newer
 lon_zone!(c08_lon_nl26_even, 26, 0);
-// @harness name=c08_lon_nl26_odd props=C08 tier=thorough cap=1800 family=c08lon quickpick=0 needs=kfmod
+// @harness name=c08_lon_nl26_odd props=C08 tier=thorough cap=7200 family=c08lon quickpick=0 needs=kfmod
 // all longitudes in latitude zone NL=26 (latitude mid-zone, hemisphere by seed), odd frame newer
 lon_zone!(c08_lon_nl26_odd, 26, 1);
-// @harness name=c08_lon_nl27_even props=C08 tier=thorough cap=1800 family=c08lon quickpick=0 needs=kfmod
+// @harness name=c08_lon_nl27_even props=C08 tier=thorough cap=7200 family=c08lon quickpick=0 needs=kfmod
 // all longitudes in latitude zone NL=27 (latitude mid-zone, hemisphere by seed), even frame newer
 lon_zone!(c08_lon_nl27_even, 27, 0);
-// @harness name=c08_lon_nl27_odd props=C08 tier=thorough cap=1800 family=c08lon quickpick=0 needs=kfmod
+// @harness name=c08_lon_nl27_odd props=C08 tier=thorough cap=7200 family=c08lon quickpick=0 needs=kfmod
 // all longitudes in latitude zone NL=27 (latitude mid-zone, hemisphere by seed), odd frame newer
 lon_zone!(c08_lon_nl27_odd, 27, 1);
-// @harness name=c08_lon_nl28_even props=C08 tier=thorough cap=1800 family=c08lon quickpick=0 needs=kfmod
+// @harness name=c08_lon_nl28_even props=C08 tier=thorough cap=7200 family=c08lon quickpick=0 needs=kfmod
 // all longitudes in latitude zone NL=28 (latitude mid-zone, hemisphere by seed), even frame newer
 lon_zone!(c08_lon_nl28_even, 28, 0);
-// @harness name=c08_lon_nl28_odd props=C08 tier=thorough cap=1800 family=c08lon quickpick=0 needs=kfmod
+// @harness name=c08_lon_nl28_odd props=C08 tier=thorough cap=7200 family=c08lon quickpick=0 needs=kfmod
 // all longitudes in latitude zone NL=28 (latitude mid-zone, hemisphere by seed), odd frame newer
 lon_zone!(c08_lon_nl28_odd, 28, 1);
-// @harness name=c08_lon_nl29_even props=C08 tier=thorough cap=1800 family=c08lon quickpick=0 needs=kfmod
+// @harness name=c08_lon_nl29_even props=C08 tier=thorough cap=7200 family=c08lon quickpick=0 needs=kfmod
 // all longitudes in latitude zone NL=29 (latitude mid-zone, hemisphere by seed), even frame newer
 lon_zone!(c08_lon_nl29_even, 29, 0);
-// @harness name=c08_lon_nl29_odd props=C08 tier=thorough cap=1800 family=c08lon quickpick=0 needs=kfmod
+// @harness name=c08_lon_nl29_odd props=C08 tier=thorough cap=7200 family=c08lon quickpick=0 needs=kfmod
 // all longitudes in latitude zone NL=29 (latitude mid-zone, hemisphere by seed), odd frame newer
 lon_zone!(c08_lon_nl29_odd, 29, 1);
-// @harness name=c08_lon_nl30_even props=C08 tier=thorough cap=1800 family=c08lon quickpick=0 needs=kfmod
+// @harness name=c08_lon_nl30_even props=C08 tier=thorough cap=7200 family=c08lon quickpick=0 needs=kfmod
 // all longitudes in latitude zone NL=30 (latitude mid-zone, hemisphere by seed), even frame newer
 lon_zone!(c08_lon_nl30_even, 30, 0);
-// @harness name=c08_lon_nl30_odd props=C08 tier=thorough cap=1800 family=c08lon quickpick=0 needs=kfmod
+// @harness name=c08_lon_nl30_odd props=C08 tier=thorough cap=7200 family=c08lon quickpick=0 needs=kfmod
 // all longitudes in latitude zone NL=30 (latitude mid-zone, hemisphere by seed), odd frame newer
 lon_zone!(c08_lon_nl30_odd, 30, 1);
-// @harness name=c08_lon_nl31_even props=C08 tier=thorough cap=1800 family=c08lon quickpick=0 needs=kfmod
+// @harness name=c08_lon_nl31_even props=C08 tier=thorough cap=7200 family=c08lon quickpick=0 needs=kfmod
 // all longitudes in latitude zone NL=31 (latitude mid-zone, hemisphere by seed), even frame newer
 lon_zone!(c08_lon_nl31_even, 31, 0);
-// @harness name=c08_lon_nl31_odd props=C08 tier=thorough cap=1800 family=c08lon quickpick=0 needs=kfmod
+// @harness name=c08_lon_nl31_odd props=C08 tier=thorough cap=7200 family=c08lon quickpick=0 needs=kfmod
 // all longitudes in latitude zone NL=31 (latitude mid-zone, hemisphere by seed), odd frame newer
 lon_zone!(c08_lon_nl31_odd, 31, 1);
-// @harness name=c08_lon_nl32_even props=C08 tier=thorough cap=1800 family=c08lon quickpick=0 needs=kfmod
+// @harness name=c08_lon_nl32_even props=C08 tier=thorough cap=7200 family=c08lon quickpick=0 needs=kfmod
 // all longitudes in latitude zone NL=32 (latitude mid-zone, hemisphere by seed), even frame newer
 lon_zone!(c08_lon_nl32_even, 32, 0);
-// @harness name=c08_lon_nl32_odd props=C08 tier=thorough cap=1800 family=c08lon quickpick=0 needs=kfmod
+// @harness name=c08_lon_nl32_odd props=C08 tier=thorough cap=7200 family=c08lon quickpick=0 needs=kfmod
 // all longitudes in latitude zone NL=32 (latitude mid-zone, hemisphere by seed), odd frame newer
 lon_zone!(c08_lon_nl32_odd, 32, 1);
-// @harness name=c08_lon_nl33_even props=C08 tier=thorough cap=1800 family=c08lon quickpick=0 needs=kfmod
+// @harness name=c08_lon_nl33_even props=C08 tier=thorough cap=7200 family=c08lon quickpick=0 needs=kfmod
 // all longitudes in latitude zone NL=33 (latitude mid-zone, hemisphere by seed), even frame newer
 lon_zone!(c08_lon_nl33_even, 33, 0);
-// @harness name=c08_lon_nl33_odd props=C08 tier=thorough cap=1800 family=c08lon quickpick=0 needs=kfmod
+// @harness name=c08_lon_nl33_odd props=C08 tier=thorough cap=7200 family=c08lon quickpick=0 needs=kfmod
 // all longitudes in latitude zone NL=33 (latitude mid-zone, hemisphere by seed), odd frame newer
 lon_zone!(c08_lon_nl33_odd, 33, 1);
-// @harness name=c08_lon_nl34_even props=C08 tier=thorough cap=1800 family=c08lon quickpick=0 needs=kfmod
+// @harness name=c08_lon_nl34_even props=C08 tier=thorough cap=7200 family=c08lon quickpick=0 needs=kfmod
 // all longitudes in latitude zone NL=34 (latitude mid-zone, hemisphere by seed), even frame newer
 lon_zone!(c08_lon_nl34_even, 34, 0);
-// @harness name=c08_lon_nl34_odd props=C08 tier=thorough cap=1800 family=c08lon quickpick=0 needs=kfmod
+// @harness name=c08_lon_nl34_odd props=C08 tier=thorough cap=7200 family=c08lon quickpick=0 needs=kfmod
 // all longitudes in latitude zone NL=34 (latitude mid-zone, hemisphere by seed), odd frame newer
 lon_zone!(c08_lon_nl34_odd, 34, 1);
-// @harness name=c08_lon_nl35_even props=C08 tier=thorough cap=1800 family=c08lon quickpick=0 needs=kfmod
+// @harness name=c08_lon_nl35_even props=C08 tier=thorough cap=7200 family=c08lon quickpick=0 needs=kfmod
 // all longitudes in latitude zone NL=35 (latitude mid-zone, hemisphere by seed), even frame newer
 lon_zone!(c08_lon_nl35_even, 35, 0);
-// @harness name=c08_lon_nl35_odd props=C08 tier=thorough cap=1800 family=c08lon quickpick=0 needs=kfmod
+// @harness name=c08_lon_nl35_odd props=C08 tier=thorough cap=7200 family=c08lon quickpick=0 needs=kfmod
 // all longitudes in latitude zone NL=35 (latitude mid-zone, hemisphere by seed), odd frame newer
 lon_zone!(c08_lon_nl35_odd, 35, 1);
-// @harness name=c08_lon_nl36_even props=C08 tier=thorough cap=1800 family=c08lon quickpick=0 needs=kfmod
+// @harness name=c08_lon_nl36_even props=C08 tier=thorough cap=7200 family=c08lon quickpick=0 needs=kfmod
 // all longitudes in latitude zone NL=36 (latitude mid-zone, hemisphere by seed), even frame newer
 lon_zone!(c08_lon_nl36_even, 36, 0);
-// @harness name=c08_lon_nl36_odd props=C08 tier=thorough cap=1800 family=c08lon quickpick=0 needs=kfmod
+// @harness name=c08_lon_nl36_odd props=C08 tier=thorough cap=7200 family=c08lon quickpick=0 needs=kfmod
 // all longitudes in latitude zone NL=36 (latitude mid-zone, hemisphere by seed), odd frame newer
 lon_zone!(c08_lon_nl36_odd, 36, 1);
-// @harness name=c08_lon_nl37_even props=C08 tier=thorough cap=1800 family=c08lon quickpick=0 needs=kfmod
+// @harness name=c08_lon_nl37_even props=C08 tier=thorough cap=7200 family=c08lon quickpick=0 needs=kfmod
 // all longitudes in latitude zone NL=37 (latitude mid-zone, hemisphere by seed), even frame newer
 lon_zone!(c08_lon_nl37_even, 37, 0);
-// @harness name=c08_lon_nl37_odd props=C08 tier=thorough cap=1800 family=c08lon quickpick=0 needs=kfmod
+// @harness name=c08_lon_nl37_odd props=C08 tier=thorough cap=7200 family=c08lon quickpick=0 needs=kfmod
 // all longitudes in latitude zone NL=37 (latitude mid-zone, hemisphere by seed), odd frame newer
 lon_zone!(c08_lon_nl37_odd, 37, 1);
-// @harness name=c08_lon_nl38_even props=C08 tier=thorough cap=1800 family=c08lon quickpick=0 needs=kfmod
+// @harness name=c08_lon_nl38_even props=C08 tier=thorough cap=7200 family=c08lon quickpick=0 needs=kfmod
 // all longitudes in latitude zone NL=38 (latitude mid-zone, hemisphere by seed), even frame newer
 lon_zone!(c08_lon_nl38_even, 38, 0);
-// @harness name=c08_lon_nl38_odd props=C08 tier=thorough cap=1800 family=c08lon quickpick=0 needs=kfmod
+// @harness name=c08_lon_nl38_odd props=C08 tier=thorough cap=7200 family=c08lon quickpick=0 needs=kfmod
 // all longitudes in latitude zone NL=38 (latitude mid-zone, hemisphere by seed), odd frame newer
 lon_zone!(c08_lon_nl38_odd, 38, 1);
-// @harness name=c08_lon_nl39_even props=C08 tier=thorough cap=1800 family=c08lon quickpick=0 needs=kfmod
+// @harness name=c08_lon_nl39_even props=C08 tier=thorough cap=7200 family=c08lon quickpick=0 needs=kfmod
 // all longitudes in latitude zone NL=39 (latitude mid-zone, hemisphere by seed), even frame newer
 lon_zone!(c08_lon_nl39_even, 39, 0);
-// @harness name=c08_lon_nl39_odd props=C08 tier=thorough cap=1800 family=c08lon quickpick=0 needs=kfmod
+// @harness name=c08_lon_nl39_odd props=C08 tier=thorough cap=7200 family=c08lon quickpick=0 needs=kfmod
 // all longitudes in latitude zone NL=39 (latitude mid-zone, hemisphere by seed), odd frame newer
 lon_zone!(c08_lon_nl39_odd, 39, 1);
-// @harness name=c08_lon_nl40_even props=C08 tier=thorough cap=1800 family=c08lon quickpick=0 needs=kfmod
+// @harness name=c08_lon_nl40_even props=C08 tier=thorough cap=7200 family=c08lon quickpick=0 needs=kfmod
 // all longitudes in latitude zone NL=40 (latitude mid-zone, hemisphere by seed), even frame newer
 lon_zone!(c08_lon_nl40_even, 40, 0);
-// @harness name=c08_lon_nl40_odd props=C08 tier=thorough cap=1800 family=c08lon quickpick=0 needs=kfmod
+// @harness name=c08_lon_nl40_odd props=C08 tier=thorough cap=7200 family=c08lon quickpick=0 needs=kfmod
 // all longitudes in latitude zone NL=40 (latitude mid-zone, hemisphere by seed), odd frame newer
 lon_zone!(c08_lon_nl40_odd, 40, 1);
-// @harness name=c08_lon_nl41_even props=C08 tier=thorough cap=1800 family=c08lon quickpick=0 needs=kfmod
+// @harness name=c08_lon_nl41_even props=C08 tier=thorough cap=7200 family=c08lon quickpick=0 needs=kfmod
 // all longitudes in latitude zone NL=41 (latitude mid-zone, hemisphere by seed), even frame newer
 lon_zone!(c08_lon_nl41_even, 41, 0);
-// @harness name=c08_lon_nl41_odd props=C08 tier=thorough cap=1800 family=c08lon quickpick=0 needs=kfmod
+// @harness name=c08_lon_nl41_odd props=C08 tier=thorough cap=7200 family=c08lon quickpick=0 needs=kfmod
 // all longitudes in latitude zone NL=41 (latitude mid-zone, hemisphere by seed), odd frame newer
 lon_zone!(c08_lon_nl41_odd, 41, 1);
-// @harness name=c08_lon_nl42_even props=C08 tier=thorough cap=1800 family=c08lon quickpick=0 needs=kfmod
+// @harness name=c08_lon_nl42_even props=C08 tier=thorough cap=7200 family=c08lon quickpick=0 needs=kfmod
 // all longitudes in latitude zone NL=42 (latitude mid-zone, hemisphere by seed), even frame newer
 lon_zone!(c08_lon_nl42_even, 42, 0);
-// @harness name=c08_lon_nl42_odd props=C08 tier=thorough cap=1800 family=c08lon quickpick=0 needs=kfmod
+// @harness name=c08_lon_nl42_odd props=C08 tier=thorough cap=7200 family=c08lon quickpick=0 needs=kfmod
 // all longitudes in latitude zone NL=42 (latitude mid-zone, hemisphere by seed), odd frame newer
 lon_zone!(c08_lon_nl42_odd, 42, 1);
-// @harness name=c08_lon_nl43_even props=C08 tier=thorough cap=1800 family=c08lon quickpick=0 needs=kfmod
+// @harness name=c08_lon_nl43_even props=C08 tier=thorough cap=7200 family=c08lon quickpick=0 needs=kfmod
 // all longitudes in latitude zone NL=43 (latitude mid-zone, hemisphere by seed), even frame newer
 lon_zone!(c08_lon_nl43_even, 43, 0);
-// @harness name=c08_lon_nl43_odd props=C08 tier=thorough cap=1800 family=c08lon quickpick=0 needs=kfmod
+// @harness name=c08_lon_nl43_odd props=C08 tier=thorough cap=7200 family=c08lon quickpick=0 needs=kfmod
 // all longitudes in latitude zone NL=43 (latitude mid-zone, hemisphere by seed), odd frame newer
 lon_zone!(c08_lon_nl43_odd, 43, 1);
-// @harness name=c08_lon_nl44_even props=C08 tier=thorough cap=1800 family=c08lon quickpick=0 needs=kfmod
+// @harness name=c08_lon_nl44_even props=C08 tier=thorough cap=7200 family=c08lon quickpick=0 needs=kfmod
 // all longitudes in latitude zone NL=44 (latitude mid-zone, hemisphere by seed), even frame newer
 lon_zone!(c08_lon_nl44_even, 44, 0);
-// @harness name=c08_lon_nl44_odd props=C08 tier=thorough cap=1800 family=c08lon quickpick=0 needs=kfmod
+// @harness name=c08_lon_nl44_odd props=C08 tier=thorough cap=7200 family=c08lon quickpick=0 needs=kfmod
 // all longitudes in latitude zone NL=44 (latitude mid-zone, hemisphere by seed), odd frame newer
 lon_zone!(c08_lon_nl44_odd, 44, 1);
-// @harness name=c08_lon_nl45_even props=C08 tier=thorough cap=1800 family=c08lon quickpick=0 needs=kfmod
+// @harness name=c08_lon_nl45_even props=C08 tier=thorough cap=7200 family=c08lon quickpick=0 needs=kfmod
 // all longitudes in latitude zone NL=45 (latitude mid-zone, hemisphere by seed), even frame newer
 lon_zone!(c08_lon_nl45_even, 45, 0);
-// @harness name=c08_lon_nl45_odd props=C08 tier=thorough cap=1800 family=c08lon quickpick=0 needs=kfmod
+// @harness name=c08_lon_nl45_odd props=C08 tier=thorough cap=7200 family=c08lon quickpick=0 needs=kfmod
 // all longitudes in latitude zone NL=45 (latitude mid-zone, hemisphere by seed), odd frame newer
 lon_zone!(c08_lon_nl45_odd, 45, 1);
-// @harness name=c08_lon_nl46_even props=C08 tier=thorough cap=1800 family=c08lon quickpick=0 needs=kfmod
+// @harness name=c08_lon_nl46_even props=C08 tier=thorough cap=7200 family=c08lon quickpick=0 needs=kfmod
 // all longitudes in latitude zone NL=46 (latitude mid-zone, hemisphere by seed), even frame newer
 lon_zone!(c08_lon_nl46_even, 46, 0);
-// @harness name=c08_lon_nl46_odd props=C08 tier=thorough cap=1800 family=c08lon quickpick=0 needs=kfmod
+// @harness name=c08_lon_nl46_odd props=C08 tier=thorough cap=7200 family=c08lon quickpick=0 needs=kfmod
 // all longitudes in latitude zone NL=46 (latitude mid-zone, hemisphere by seed), odd frame newer
 lon_zone!(c08_lon_nl46_odd, 46, 1);
-// @harness name=c08_lon_nl47_even props=C08 tier=thorough cap=1800 family=c08lon quickpick=0 needs=kfmod
+// @harness name=c08_lon_nl47_even props=C08 tier=thorough cap=7200 family=c08lon quickpick=0 needs=kfmod
 // all longitudes in latitude zone NL=47 (latitude mid-zone, hemisphere by seed), even frame newer
 lon_zone!(c08_lon_nl47_even, 47, 0);
-// @harness name=c08_lon_nl47_odd props=C08 tier=thorough cap=1800 family=c08lon quickpick=0 needs=kfmod
+// @harness name=c08_lon_nl47_odd props=C08 tier=thorough cap=7200 family=c08lon quickpick=0 needs=kfmod
 // all longitudes in latitude zone NL=47 (latitude mid-zone, hemisphere by seed), odd frame newer
 lon_zone!(c08_lon_nl47_odd, 47, 1);
-// @harness name=c08_lon_nl48_even props=C08 tier=thorough cap=1800 family=c08lon quickpick=0 needs=kfmod
+// @harness name=c08_lon_nl48_even props=C08 tier=thorough cap=7200 family=c08lon quickpick=0 needs=kfmod
 // all longitudes in latitude zone NL=48 (latitude mid-zone, hemisphere by seed), even frame newer
 lon_zone!(c08_lon_nl48_even, 48, 0);
-// @harness name=c08_lon_nl48_odd props=C08 tier=thorough cap=1800 family=c08lon quickpick=0 needs=kfmod
+// @harness name=c08_lon_nl48_odd props=C08 tier=thorough cap=7200 family=c08lon quickpick=0 needs=kfmod
 // all longitudes in latitude zone NL=48 (latitude mid-zone, hemisphere by seed), odd frame newer
 lon_zone!(c08_lon_nl48_odd, 48, 1);
-// @harness name=c08_lon_nl49_even props=C08 tier=thorough cap=1800 family=c08lon quickpick=0 needs=kfmod
+// @harness name=c08_lon_nl49_even props=C08 tier=thorough cap=7200 family=c08lon quickpick=0 needs=kfmod
 // all longitudes in latitude zone NL=49 (latitude mid-zone, hemisphere by seed), even frame newer
 lon_zone!(c08_lon_nl49_even, 49, 0);
-// @harness name=c08_lon_nl49_odd props=C08 tier=thorough cap=1800 family=c08lon quickpick=0 needs=kfmod
+// @harness name=c08_lon_nl49_odd props=C08 tier=thorough cap=7200 family=c08lon quickpick=0 needs=kfmod
 // all longitudes in latitude zone NL=49 (latitude mid-zone, hemisphere by seed), odd frame newer
 lon_zone!(c08_lon_nl49_odd, 49, 1);
-// @harness name=c08_lon_nl50_even props=C08 tier=thorough cap=1800 family=c08lon quickpick=0 needs=kfmod
+// @harness name=c08_lon_nl50_even props=C08 tier=thorough cap=7200 family=c08lon quickpick=0 needs=kfmod
 // all longitudes in latitude zone NL=50 (latitude mid-zone, hemisphere by seed), even frame newer
 lon_zone!(c08_lon_nl50_even, 50, 0);
-// @harness name=c08_lon_nl50_odd props=C08 tier=thorough cap=1800 family=c08lon quickpick=0 needs=kfmod
+// @harness name=c08_lon_nl50_odd props=C08 tier=thorough cap=7200 family=c08lon quickpick=0 needs=kfmod
 // all longitudes in latitude zone NL=50 (latitude mid-zone, hemisphere by seed), odd frame newer
 lon_zone!(c08_lon_nl50_odd, 50, 1);
-// @harness name=c08_lon_nl51_even props=C08 tier=thorough cap=1800 family=c08lon quickpick=0 needs=kfmod
+// @harness name=c08_lon_nl51_even props=C08 tier=thorough cap=7200 family=c08lon quickpick=0 needs=kfmod
 // all longitudes in latitude zone NL=51 (latitude mid-zone, hemisphere by seed), even frame newer
 lon_zone!(c08_lon_nl51_even, 51, 0);
-// @harness name=c08_lon_nl51_odd props=C08 tier=thorough cap=1800 family=c08lon quickpick=0 needs=kfmod
+// @harness name=c08_lon_nl51_odd props=C08 tier=thorough cap=7200 family=c08lon quickpick=0 needs=kfmod
 // all longitudes in latitude zone NL=51 (latitude mid-zone, hemisphere by seed), odd frame newer
 lon_zone!(c08_lon_nl51_odd, 51, 1);
-// @harness name=c08_lon_nl52_even props=C08 tier=thorough cap=1800 family=c08lon quickpick=0 needs=kfmod
+// @harness name=c08_lon_nl52_even props=C08 tier=thorough cap=7200 family=c08lon quickpick=0 needs=kfmod
 // all longitudes in latitude zone NL=52 (latitude mid-zone, hemisphere by seed), even frame newer
 lon_zone!(c08_lon_nl52_even, 52, 0);
-// @harness name=c08_lon_nl52_odd props=C08 tier=thorough cap=1800 family=c08lon quickpick=0 needs=kfmod
+// @harness name=c08_lon_nl52_odd props=C08 tier=thorough cap=7200 family=c08lon quickpick=0 needs=kfmod
 // all longitudes in latitude zone NL=52 (latitude mid-zone, hemisphere by seed), odd frame newer
 lon_zone!(c08_lon_nl52_odd, 52, 1);
-// @harness name=c08_lon_nl53_even props=C08 tier=thorough cap=1800 family=c08lon quickpick=0 needs=kfmod
+// @harness name=c08_lon_nl53_even props=C08 tier=thorough cap=7200 family=c08lon quickpick=0 needs=kfmod
 // all longitudes in latitude zone NL=53 (latitude mid-zone, hemisphere by seed), even frame newer
 lon_zone!(c08_lon_nl53_even, 53, 0);
-// @harness name=c08_lon_nl53_odd props=C08 tier=thorough cap=1800 family=c08lon quickpick=0 needs=kfmod
+// @harness name=c08_lon_nl53_odd props=C08 tier=thorough cap=7200 family=c08lon quickpick=0 needs=kfmod
 // all longitudes in latitude zone NL=53 (latitude mid-zone, hemisphere by seed), odd frame newer
 lon_zone!(c08_lon_nl53_odd, 53, 1);
-// @harness name=c08_lon_nl54_even props=C08 tier=thorough cap=1800 family=c08lon quickpick=0 needs=kfmod
+// @harness name=c08_lon_nl54_even props=C08 tier=thorough cap=7200 family=c08lon quickpick=0 needs=kfmod
 // all longitudes in latitude zone NL=54 (latitude mid-zone, hemisphere by seed), even frame newer
 lon_zone!(c08_lon_nl54_even, 54, 0);
-// @harness name=c08_lon_nl54_odd props=C08 tier=thorough cap=1800 family=c08lon quickpick=0 needs=kfmod
+// @harness name=c08_lon_nl54_odd props=C08 tier=thorough cap=7200 family=c08lon quickpick=0 needs=kfmod
 // all longitudes in latitude zone NL=54 (latitude mid-zone, hemisphere by seed), odd frame newer
 lon_zone!(c08_lon_nl54_odd, 54, 1);
-// @harness name=c08_lon_nl55_even props=C08 tier=thorough cap=1800 family=c08lon quickpick=0 needs=kfmod
+// @harness name=c08_lon_nl55_even props=C08 tier=thorough cap=7200 family=c08lon quickpick=0 needs=kfmod
 // all longitudes in latitude zone NL=55 (latitude mid-zone, hemisphere by seed), even frame newer
 lon_zone!(c08_lon_nl55_even, 55, 0);
-// @harness name=c08_lon_nl55_odd props=C08 tier=thorough cap=1800 family=c08lon quickpick=0 needs=kfmod
+// @harness name=c08_lon_nl55_odd props=C08 tier=thorough cap=7200 family=c08lon quickpick=0 needs=kfmod
 // all longitudes in latitude zone NL=55 (latitude mid-zone, hemisphere by seed), odd frame newer
 lon_zone!(c08_lon_nl55_odd, 55, 1);
-// @harness name=c08_lon_nl56_even props=C08 tier=thorough cap=1800 family=c08lon quickpick=0 needs=kfmod
+// @harness name=c08_lon_nl56_even props=C08 tier=thorough cap=7200 family=c08lon quickpick=0 needs=kfmod
 // all longitudes in latitude zone NL=56 (latitude mid-zone, hemisphere by seed), even frame newer
 lon_zone!(c08_lon_nl56_even, 56, 0);
-// @harness name=c08_lon_nl56_odd props=C08 tier=thorough cap=1800 family=c08lon quickpick=0 needs=kfmod
+// @harness name=c08_lon_nl56_odd props=C08 tier=thorough cap=7200 family=c08lon quickpick=0 needs=kfmod
 // all longitudes in latitude zone NL=56 (latitude mid-zone, hemisphere by seed), odd frame newer
 lon_zone!(c08_lon_nl56_odd, 56, 1);
-// @harness name=c08_lon_nl57_even props=C08 tier=thorough cap=1800 family=c08lon quickpick=0 needs=kfmod
+// @harness name=c08_lon_nl57_even props=C08 tier=thorough cap=7200 family=c08lon quickpick=0 needs=kfmod
 // all longitudes in latitude zone NL=57 (latitude mid-zone, hemisphere by seed), even frame newer
 lon_zone!(c08_lon_nl57_even, 57, 0);
-// @harness name=c08_lon_nl57_odd props=C08 tier=thorough cap=1800 family=c08lon quickpick=0 needs=kfmod
+// @harness name=c08_lon_nl57_odd props=C08 tier=thorough cap=7200 family=c08lon quickpick=0 needs=kfmod
 // all longitudes in latitude zone NL=57 (latitude mid-zone, hemisphere by seed), odd frame newer
 lon_zone!(c08_lon_nl57_odd, 57, 1);
-// @harness name=c08_lon_nl58_even props=C08 tier=thorough cap=1800 family=c08lon quickpick=0 needs=kfmod
+// @harness name=c08_lon_nl58_even props=C08 tier=thorough cap=7200 family=c08lon quickpick=0 needs=kfmod
 // all longitudes in latitude zone NL=58 (latitude mid-zone, hemisphere by seed), even frame newer
 lon_zone!(c08_lon_nl58_even, 58, 0);
-// @harness name=c08_lon_nl58_odd props=C08 tier=thorough cap=1800 family=c08lon quickpick=0 needs=kfmod
+// @harness name=c08_lon_nl58_odd props=C08 tier=thorough cap=7200 family=c08lon quickpick=0 needs=kfmod
 // all longitudes in latitude zone NL=58 (latitude mid-zone, hemisphere by seed), odd frame newer
 lon_zone!(c08_lon_nl58_odd, 58, 1);
-// @harness name=c08_lon_nl59_even props=C08 tier=thorough cap=1800 family=c08lon quickpick=0 needs=kfmod
+// @harness name=c08_lon_nl59_even props=C08 tier=thorough cap=7200 family=c08lon quickpick=0 needs=kfmod
 // all longitudes in latitude zone NL=59 (latitude mid-zone, hemisphere by seed), even frame newer
 lon_zone!(c08_lon_nl59_even, 59, 0);
-// @harness name=c08_lon_nl59_odd props=C08 tier=thorough cap=1800 family=c08lon quickpick=0 needs=kfmod
+// @harness name=c08_lon_nl59_odd props=C08 tier=thorough cap=7200 family=c08lon quickpick=0 needs=kfmod
 // all longitudes in latitude zone NL=59 (latitude mid-zone, hemisphere by seed), odd frame newer
 lon_zone!(c08_lon_nl59_odd, 59, 1);
